@@ -4,6 +4,7 @@ C04 - dt() maps every supported spelling of an instant to the same datetime.
 
 Sub-checks
     spellings   Hypothesis: (day, time of day) -> every spelling of the statement is fed to dt()/ymd()/dt2str()
+    edge_years  the same oracle on every day of five whole years (both tiers; deterministic)
     all_days    the same oracle on EVERY day of [1900-01-01, 2300-01-01) (146 097 specs; time of day derived from the ordinal)
     overflow    dt(y, m, d) for one (y, m) and ALL d in [-400, 400]; quick samples (y, m), thorough enumerates all
                 400 years x 85 months (34 000 specs = 27 234 000 triples)
@@ -33,6 +34,8 @@ ASSUMPTIONS = [
     'the generators never ask for it, a spec with a 4th element true does (replays/C04/pending/)',
 ]
 
+# flip to True once uk2dt keeps the microseconds (then the generated cases include the class again)
+INCLUDE_UK_FRACTION_LOW_DAYS = False
 UK_FRACTION = 'uk2dt rebuilds the swapped date through dt(y, m, d, h, mi, s, us) which ignores its 7th argument: microseconds are dropped when day <= 12'
 
 SEPS = ['-', '/', '.', ' ']
@@ -67,7 +70,7 @@ def run_day(spec):
     import pandas as pd
     from pyg_base import dt, ymd, dt2str
     o, sec, us = spec[0], spec[1], spec[2]
-    uk_fraction_low_days = len(spec) > 3 and bool(spec[3])
+    uk_fraction_low_days = INCLUDE_UK_FRACTION_LOW_DAYS or (len(spec) > 3 and bool(spec[3]))
     t = DT.fromordinal(o) + datetime.timedelta(seconds=sec, microseconds=us)
     y, m, d, h, mi, s = t.year, t.month, t.day, t.hour, t.minute, t.second
     day0 = DT(y, m, d)
@@ -185,6 +188,8 @@ _day = st.one_of(
     st.tuples(st.sampled_from(_LEAP_YEARS), st.just(2), st.just(29)),
     st.tuples(_years, st.just(2), st.integers(28, 29)),
     st.tuples(_years, st.sampled_from([(1, 1), (12, 31), (12, 1), (1, 31), (3, 1)])).map(lambda t: (t[0], t[1][0], t[1][1])),
+    # both ends of the domain, the unix epoch, the datetime64[ns] limit (these sit next to the numeric thresholds of num2dt / np2dt)
+    st.sampled_from([(1900, 1, 1), (1900, 1, 2), (2299, 12, 31), (2299, 12, 30), (1969, 12, 31), (1970, 1, 1), (2262, 4, 10), (2262, 4, 11), (2262, 4, 12)]),
 ).map(_ordinal)
 
 _sec = st.one_of(st.integers(0, 86399), st.sampled_from([0, 0, 1, 59, 60, 3599, 3600, 43199, 43200, 86340, 86399]))
@@ -209,6 +214,19 @@ def enum_days(tier):
             sec, us = _derived_time(o)
             yield [o, sec, us]
     return O_MAX - O_MIN, chunker
+
+
+EDGE_YEARS = [1900, 2000, 2024, 2262, 2299]   # domain start (non-leap century), leap century, ordinary leap year, datetime64[ns] limit, domain end
+
+
+def enum_edge_years(tier):
+    days = [o for y in EDGE_YEARS for o in range(datetime.date(y, 1, 1).toordinal(), datetime.date(y, 12, 31).toordinal() + 1)]
+
+    def chunker(i, nchunks):
+        for o in days[i::nchunks]:
+            sec, us = _derived_time(o)
+            yield [o, sec, us]
+    return len(days), chunker
 
 
 # ----------------------------------------------------------------------------- month / day overflow
@@ -266,6 +284,9 @@ SUBS = [
              'non-trivial = ambiguous day (day<=12, day!=month) or leap day or 1 Jan/31 Dec or 28 Feb/1 Mar of a century year; distinct = distinct spec',
         floor=0.3, class_floors={'ambiguous(day<=12,day!=month)': 0.2, 'day>12': 0.2, 'leap_day': 0.03, 'year_boundary': 0.03,
                                  'december': 0.04, 'microseconds': 0.3, 'midnight': 0.01}),
+    EnumSub('edge_years', enum_edge_years, run_day, chunks=8,
+            rule='run in BOTH tiers: every day of the years %s (%i days: every month x day combination in leap and non-leap years, both ends of the domain, '
+                 'the datetime64[ns] limit), time of day derived from the ordinal; same oracle as spellings' % (EDGE_YEARS, sum(366 if _is_leap(y) else 365 for y in EDGE_YEARS))),
     EnumSub('all_days', enum_days, run_day, thorough_only=True, chunks=64,
             rule='every one of the 146097 days of [1900-01-01, 2300-01-01) with a time of day derived from the ordinal (1/8 midnight, 1/8 whole second, rest microseconds). '
                  'Per day: ' + _FORMATS + _ORACLE + 'non-trivial as in spellings'),
